@@ -143,3 +143,26 @@ pub fn mk_time_any(secs: u32, frac: u32) -> NaiveTime {
     t.or(base).unwrap_or(NaiveTime::MIN)
 }
 pub fn mk_ndt(n: i64, secs: u32, frac: u32) -> NaiveDateTime { mk_date(n).and_time(mk_time_any(secs, frac)) }
+
+/// Witnesses for digit-pair tables and per-field lookup tables of the text writers: the 100 values of a two-digit field in both halves
+/// of a four-digit year (year 101 k has k in both), every month, every hour, every minute and every second at least once.
+pub fn pair_witnesses() -> Vec<NaiveDateTime> {
+    (0..100u32).map(|k| {
+        let d = mk_date(days_from_civil((101 * k) as i32, k % 12 + 1, (k * 7) % 28 + 1));
+        let mi = if k < 60 { k } else { (k * 7) % 60 };
+        d.and_time(mk_time_any((k % 24) * 3600 + mi * 60 + (k * 11) % 60, [0u32, 5_000_000, 120_000, 999_999_999, 1_000][k as usize % 5]))
+    }).collect()
+}
+
+/// A sequence for one-entry memos and reused scratch state inside a writer or reader: consecutive values agree in one component and differ
+/// in another (same ordinal in a leap and a common year, same month and day in different years, same year and different days, ...), each
+/// visited again after its neighbour.
+pub fn memo_sequence() -> Vec<NaiveDate> {
+    let mut v = Vec::new();
+    for o in [59i64, 60, 61, 244, 245, 365] {
+        for y in [2016, 2015, 2016, 2017, 2000, 1900] { v.push(mk_date(days_from_civil(y, 1, 1) + o - 1)); }
+    }
+    for (m, d) in [(2u32, 28u32), (3, 1), (12, 31), (1, 1)] { for y in [2024, 2023, 2024, 1999, 9999, 0] { v.push(mk_date(days_from_civil(y, m, d))); } }
+    v.push(mk_date(days_from_civil(2016, 12, 31))); v.push(mk_date(days_from_civil(2015, 12, 31))); v.push(mk_date(days_from_civil(2016, 12, 30)));
+    v
+}
